@@ -237,13 +237,13 @@ CLAIMED = {
          "of per-edge penalties that vanish exactly on covered edges and are >= 1 otherwise; C10_vc_ground: with A > B > 0 "
          "every ground state is a vertex cover of minimum size and the ground energy is B times that size -- by the repair "
          "argument 'add one endpoint per uncovered edge'), NumberPartitioning (C10_np_value, C10_np_ground, "
-         "C10_np_ground_even, C10_np_valid), AlternatingSectorsChain with open boundary (C10_asc_value, C10_asc_ground: the "
-         "ground states are the uniform states). For all seven classes the model builds to_qubo / to_quso with the same item "
+         "C10_np_ground_even, C10_np_valid), AlternatingSectorsChain with open and (N >= 3) periodic boundary (C10_asc_value, C10_asc_ground, C10_asc_value_pbc, "
+         "C10_asc_ground_pbc: the ground states are the uniform states). For all seven classes the model builds to_qubo / to_quso with the same item "
          "operations as the source and is tied to /repo by exact comparison of the produced matrices (all log_trick / M / "
          "weight settings), and the full property (is_solution_valid, convert_solution, ground states for admissible and "
          "default weights, solve_bruteforce) is checked on the implementation by combinatorial oracles on small instances.",
-    note="PARTIAL: no ground-state theorem is claimed for JobSequencing, GraphPartitioning and the periodic "
-         "chain; for those the check rests on the exact matrix correspondence plus the enumeration oracle. Trusted: Coq kernel "
+    note="PARTIAL: no ground-state theorem is claimed for JobSequencing and GraphPartitioning "
+         "(and the periodic chain with N <= 2, where the closing coupling coincides with an existing key); for those the check rests on the exact matrix correspondence plus the enumeration oracle. Trusted: Coq kernel "
          "+ vm_compute; no axioms; hand-written model of qubovert/problems; harness.",
     technique="Coq proof (value identities; exchange / repair arguments for ground states) + exact matrix correspondence + combinatorial oracle", ref="§5 C10"),
 }
